@@ -592,35 +592,8 @@ func ruleEnvVersionsOnly(c *Ctx) {
 	} else {
 		c.R.Undecided("R-NEG", "Client.checkProtoVersion", "anchor", "function not found")
 	}
-	// legacy fold precedes the construction of the offer
 	info := f.Pkg.TypesInfo
 	g := p.Graph(f)
-	vpF := p.FieldObj(modPath, "ClientConfig", "VersionedPlugins")
-	var foldN, rangeN *Node
-	for _, m := range g.Nodes {
-		if as, ok := m.Ast.(*ast.AssignStmt); ok && len(as.Lhs) == 1 {
-			if ix, ok := ast.Unparen(as.Lhs[0]).(*ast.IndexExpr); ok && SelField(info, ix.X) == vpF {
-				foldN = m
-			}
-		}
-	}
-	ast.Inspect(f.Body, func(x ast.Node) bool {
-		if rs, ok := x.(*ast.RangeStmt); ok && SelField(info, rs.X) == vpF {
-			rangeN = g.NodeOf(rs.X)
-		}
-		return true
-	})
-	if foldN != nil && rangeN != nil {
-		_, before := g.ReachAfter(foldN, nil, nil)[rangeN]
-		_, afterwards := g.ReachAfter(rangeN, nil, nil)[foldN]
-		if before && !afterwards {
-			c.R.Hold("R-NEG", p.Pos(foldN.Ast), f.Name, "legacy version folded in before the offer is built", "", true)
-		} else {
-			c.R.Violate("R-NEG", p.Pos(foldN.Ast), f.Name, "legacy version folded in before the offer is built", "the legacy ProtocolVersion/Plugins pair is added after the offered list was built: it is accepted but never offered", nil)
-		}
-	} else {
-		c.R.Violate("R-NEG", p.Pos(f.Node()), f.Name, "legacy version folded in before the offer is built", "no store of the legacy plugin set into ClientConfig.VersionedPlugins before the offer", nil)
-	}
 	// G-app on the Start side (accept only after the check; store what it returned): reuse the gate
 	si := p.startInfo(c, "R-NEG")
 	if si == nil {
